@@ -674,7 +674,7 @@ func writeEvidence(cd *CheckDef, tier string, seed uint64, agg *aggregate, wall 
 			"reach_probes_stuck":  stuck,
 			"violations_reported": reported,
 			"known_findings":      known,
-			"components":          map[string]string{"package hermes": "real (working tree, tag verif)", "batch dispatcher": "real (overlay into package main)", "result files": "simulated disk behind the OutWriter seam", "input files": "real files in a private scratch directory", "main() flag parsing": "not exercised in-process"},
+			"components":          componentsOf(cd),
 			"exit":                exit,
 		},
 		"assumptions": cd.Assumptions,
@@ -837,4 +837,29 @@ func selftestDeterminism() int {
 		return 2
 	}
 	return 0
+}
+
+// componentsOf states which components ran real code and which ran a stub in this check.
+func componentsOf(cd *CheckDef) map[string]string {
+	m := map[string]string{
+		"package hermes (input, weather, water, N, crop, temperature, output formatting, config, file pool)": "real, compiled from the working tree with tag verif",
+		"result files":  "simulated disk behind the OutWriter seam (stub of the file writer); every 40th single-run scenario is repeated on the real disk with the shipped writer and compared byte for byte",
+		"input files":   "real files in a private scratch directory",
+		"Go scheduler":  "not involved (one run per scenario)",
+		"wall clock":    "not read by any compared observable",
+	}
+	switch cd.Prop {
+	case "C03", "C11", "C14", "C18", "C17":
+		m["batch dispatcher (doConcurrentBatchRun, error summary)"] = "real (overlay into package main), inside a testing/synctest bubble"
+		m["Go scheduler"] = "replaced by the seeded scheduler at hook granularity (run start, pooled-file Get, result-file open/close/record end, log and result sends); real inside overlap windows (C03 race stratum)"
+		m["main() flag parsing (-lines, -concurrent, -batch reading)"] = "stub: re-implemented in a few lines by the harness"
+		m["result files"] = "simulated disk behind the OutWriter seam (stub of the file writer)"
+	}
+	if cd.Prop == "C17" {
+		m["calcHermesBatch"] = "real binary built from the working tree, child process"
+	}
+	if cd.Prop == "C13" {
+		m["crop file converter"] = "the two functions its main() calls (ConvertCropParamClassicToYml, WriteCropParam): real"
+	}
+	return m
 }
